@@ -27,6 +27,7 @@ type c15Case struct {
 	MaxDepth  int          `json:"maxDepth"`
 	Transform bool         `json:"transform"` // program may contain transforms (recorded mode only)
 	Text      string       `json:"text,omitempty"`
+	Knot      bool         `json:"knot,omitempty"` // densely mutually recursive unary program
 }
 
 type c15 struct{}
@@ -43,7 +44,7 @@ func (c15) Cases(tier string) int {
 func (c15) Describe() core.Info {
 	return core.Info{
 		Level: "exploration",
-		Rule: "transform-free typed random programs in the fragment the property names (positive atoms incl. wildcards, negated atoms, equalities incl. function expressions, inequalities; linear, non-linear and mutual recursion with several derivation paths), every fact of the evaluated store as goal, MaxProofs in {1,3,10}, MaxDepth in {2,8,64}; both provenance.Explain and a MemoryRecorder + BuildFromRecording; a third of the cases are programs with let/do transforms, checked in recorded mode only. Independent proof checker: every derived node's fact is the rule head under the reported bindings (completed by unifying each positive/negated body literal with its sub-proof's fact, in body order, and by binding equalities), (in)equalities hold, EDB leaves are in the store, absence leaves are not, no fact is its own ancestor; let nodes have the body atoms under the row as premises, do nodes have exactly the facts of the group. Existence: with MaxDepth 64 every stored fact of a transform-free program has a complete (non-partial) proof. IDs: a table id<->canonical content accumulated over the whole worker run must stay a bijection. The store with and without a recorder must be equal. Non-trivial: goal is derived and proof depth >= 2 or program has a recursion candidate; distinct by (program, options).",
+		Rule: "transform-free typed random programs in the fragment the property names (positive atoms incl. wildcards, negated atoms, equalities incl. function expressions, inequalities; linear, non-linear and mutual recursion with several derivation paths; every sixth case is a 'knot': 3-7 unary predicates in one strongly connected component with 1-3 rules each on a domain of 1-2 constants, so that most goals recur below themselves and the cycle cut and the memo tables are exercised), every fact of the evaluated store as goal, MaxProofs in {1,3,10}, MaxDepth in {2,8,64}; both provenance.Explain and a MemoryRecorder + BuildFromRecording; a third of the cases are programs with let/do transforms, checked in recorded mode only. Independent proof checker: every derived node's fact is the rule head under the reported bindings (completed by unifying each positive/negated body literal with its sub-proof's fact, in body order, and by binding equalities), (in)equalities hold, EDB leaves are in the store, absence leaves are not, no fact is its own ancestor; let nodes have the body atoms under the row as premises, do nodes have exactly the facts of the group. Existence: with MaxDepth 64 every stored fact of a transform-free program has a complete (non-partial) proof. IDs: a table id<->canonical content accumulated over the whole worker run must stay a bijection. The store with and without a recorder must be equal. Non-trivial: goal is derived and proof depth >= 2 or program has a recursion candidate; distinct by (program, options).",
 		Assumptions: []string{"comparison and other built-in predicates are outside the fragment for which the property promises a proof and are not generated in the transform-free workload"},
 		PerCaseTimeout: 120e9,
 	}
@@ -51,7 +52,12 @@ func (c15) Describe() core.Info {
 
 func (c15) Gen(r *rand.Rand, tier string, i int) any {
 	c := c15Case{MaxProofs: []int{1, 3, 10}[r.Intn(3)], MaxDepth: []int{2, 8, 64, 64}[r.Intn(4)]}
-	if i%3 == 2 {
+	if i%6 == 1 {
+		// dense mutual recursion: most goals are reached again below themselves
+		c.Prog = gen.RandKnotProgram(r)
+		c.MaxDepth = 64
+		c.Knot = true
+	} else if i%3 == 2 {
 		c.Transform = true
 		o := gen.ProgOpts{Negation: true, Compare: false, Functions: r.Intn(3) == 0, Unguarded: true, Let: true, Do: true, DoPercent: 60, Wildcards: false, MaxIDB: 4}
 		c.Prog = gen.RandProgram(r, o)
@@ -793,6 +799,9 @@ func (c15) Run(cs any) core.Result {
 	}
 	f := progFeatures(c.Prog)
 	res.NonTrivial = f["recursion-candidate"] || res.Obs["derived_goals_with_depth_2+"] > 0
+	if c.Knot {
+		res.Ob("knot_programs", 1)
+	}
 	if c.Transform {
 		res.Ob("programs_with_transforms", 1)
 	} else {
